@@ -64,6 +64,12 @@ def spec_labels(yt, yp, pos):
 @register
 class CHECK(Check):
     pid = "C14"
+    technique = "Lean 4 theorems over the BaseMetrics model + compiled-driver correspondence with the 7 public functions"
+    level_text = ("Theorems (all inputs, no size bound): rates in [0,1], TPR+FNR / TNR+FPR = 1 or both 0, pos_label swap, "
+                  "rejection rules of _get_labels_for_confusion_matrix, selection_rate/mean_prediction/count definitions. "
+                  "Tie: the 7 public functions vs the compiled Lean model on generated + exhaustive small inputs, value "
+                  "within 1e-12 and scalar-ness of the returned object; independent Fraction oracle decides violations.")
+    design_ref = "DESIGN.md section 4, C14"
     quick_cases = 1500
     thorough_cases = 40000
     quick_budget_s = 60
